@@ -84,6 +84,42 @@ func extraCommand(t *rapid.T, p *gen.Pool) []string {
 	}
 }
 
+// expiryScenario returns a short command series that puts a read-modify-write of one family on a
+// value that carries a short expiry: the place where a handler that consults the wall clock
+// instead of the log timestamp answers differently depending on when the log is applied.
+func expiryScenario(t *rapid.T, p *gen.Pool) [][]string {
+	k := rapid.SampledFrom(p.Keys).Draw(t, "skey")
+	m := func() string { return rapid.SampledFrom(p.Members).Draw(t, "sm") }
+	d := rapid.SampledFrom([]string{"2", "3", "5"}).Draw(t, "sdur")
+	var create, expire []string
+	var rmw [][]string
+	switch rapid.IntRange(0, 5).Draw(t, "sfam") {
+	case 0:
+		create, expire = []string{"hmset", k, m(), "1", m(), "2"}, []string{"hexpire", k, d}
+		rmw = [][]string{{"hclear", k}, {"hdel", k, m()}, {"hincrby", k, m(), "1"}, {"hsetnx", k, m(), "v"}, {"hset", k, m(), "v"}}
+	case 1:
+		create, expire = []string{"rpush", k, "a", "b", "c"}, []string{"lexpire", k, d}
+		rmw = [][]string{{"lpop", k}, {"rpop", k}, {"lclear", k}, {"ltrim", k, "1", "-1"}, {"lset", k, "0", "z"}, {"lpush", k, "y"}}
+	case 2:
+		create, expire = []string{"sadd", k, m(), m(), "zz"}, []string{"sexpire", k, d}
+		rmw = [][]string{{"spop", k}, {"spop", k, "2"}, {"srem", k, m()}, {"sclear", k}, {"sadd", k, m()}}
+	case 3:
+		create, expire = []string{"zadd", k, "1", m(), "2", "zz"}, []string{"zexpire", k, d}
+		rmw = [][]string{{"zrem", k, m()}, {"zclear", k}, {"zincrby", k, "1", m()}, {"zremrangebyrank", k, "0", "0"}, {"zremrangebyscore", k, "-inf", "+inf"}, {"zadd", k, "3", m()}}
+	case 4:
+		create, expire = []string{"set", k, "10"}, []string{"expire", k, d}
+		rmw = [][]string{{"incr", k}, {"append", k, "x"}, {"getset", k, "n"}, {"setnx", k, "n"}, {"set", k, "n", "nx"}, {"set", k, "n", "xx"}, {"setrange", k, "1", "y"}, {"del", k}, {"persist", k}, {"delifeq", k, "10"}, {"setifeq", k, "10", "11"}}
+	default:
+		create, expire = []string{"setbitv2", k, "9", "1"}, []string{"bexpire", k, d}
+		rmw = [][]string{{"setbitv2", k, "3", "1"}, {"bitclear", k}, {"setbit", k, "9", "0"}}
+	}
+	out := [][]string{create, expire}
+	for i := rapid.IntRange(1, 3).Draw(t, "nrmw"); i > 0; i-- {
+		out = append(out, rmw[rapid.IntRange(0, len(rmw)-1).Draw(t, "srmw")])
+	}
+	return out
+}
+
 func isBatchable(name string) bool {
 	switch name {
 	case "set", "setex", "del", "hmset", "hset", "hdel", "incr":
@@ -224,7 +260,41 @@ func runCase(t *rapid.T, engines []string, recName string) {
 	lastKeyBatchable := ""
 	hasExp := map[string]bool{}
 	var instants []int64 // ns offsets of expiry instants (anchor is a whole second)
+	var queued [][]string // commands of an expiry scenario still to be emitted, one per entry
 	for len(log) < n {
+		if len(queued) == 0 && rapid.IntRange(0, 11).Draw(t, "scenario") == 0 {
+			queued = expiryScenario(t, pool)
+		}
+		if len(queued) > 0 {
+			// stay inside the expiry window: sub-second or one-second steps
+			switch rapid.IntRange(0, 3).Draw(t, "stick") {
+			case 0:
+				off += 4
+			case 1:
+				off += int64(rapid.IntRange(1, 999999999).Draw(t, "sns"))
+			case 2:
+				off += 1e9
+			default:
+				off += 2e9
+			}
+			if strict && len(log) > 0 && off < log[len(log)-1].off+4 {
+				off = log[len(log)-1].off + 4
+			}
+			c := queued[0]
+			queued = queued[1:]
+			id++
+			log = append(log, logEntry{off: off, cmds: []simkv.LogCmd{{ID: id, Args: c}}})
+			fk := famKey(c)
+			if hasExp[fk] && isRMW(c[0]) {
+				rmwOnExpiring = true
+			}
+			if d := durationOf(c); d > 0 {
+				hasExp[fk] = true
+				instants = append(instants, (off/1e9+d)*1e9)
+			}
+			lastKeyBatchable = ""
+			continue
+		}
 		switch rapid.IntRange(0, 9).Draw(t, "tick") {
 		case 0, 1, 2:
 		case 3:
